@@ -152,6 +152,37 @@ theorem gq_dec_compute_flat (w n k L M : Nat) (hd : 0 < n * k) (hnk : n * k < B6
     · simp [hw.symm, gq_pure]
     · simp [hw, gq_pure]
 
+/-- the generated `KeyGenerator::compute_secret_key_array`, in closed form (same proof): `L` / `M` = polynomials in the shared vector under the read /
+    the write lock -/
+theorem gq_kg_compute_flat (w n k L M : Nat) (hd : 0 < n * k) (hnk : n * k < B64) (hA : max L w * n * k < B64) :
+    GenConc.kg_compute_secret_key_array w n k (L * (n * k)) (M * (n * k)) =
+      .ok (if L = max L w then [1, 2]
+           else [1, 10, max L w * n * k, 11, L * (n * k), 2, 12, L, max L w - L, 3] ++
+             (if M = max M w then [4] else [13, max L w * n * k, 4])) := by
+  have hk : 0 < k := Nat.pos_of_mul_pos_left hd
+  have hLm : L ≤ max L w := Nat.le_max_left _ _
+  have hmn : max L w * n ≤ max L w * n * k := Nat.le_mul_of_pos_right _ hk
+  have hass : max L w * n * k = max L w * (n * k) := Nat.mul_assoc _ _ _
+  have hLle : L * (n * k) ≤ max L w * n * k := by rw [hass]; exact Nat.mul_le_mul_right _ hLm
+  have e1 : ckMul n k = .ok (n * k) := by unfold ckMul; rw [if_pos hnk]
+  have e2 : ckMod (L * (n * k)) (n * k) = .ok 0 := by unfold ckMod; rw [if_neg (by omega), Nat.mul_mod_left]
+  have e3 : ckDiv (L * (n * k)) (n * k) = .ok L := by unfold ckDiv; rw [if_neg (by omega), Nat.mul_div_cancel _ hd]
+  have e4 : ckMul (max L w) n = .ok (max L w * n) := by unfold ckMul; rw [if_pos (by omega)]
+  have e5 : ckMul (max L w * n) k = .ok (max L w * n * k) := by unfold ckMul; rw [if_pos hA]
+  have e6 : ckMul L (n * k) = .ok (L * (n * k)) := by unfold ckMul; rw [if_pos (by omega)]
+  have e7 : ckSub (max L w) L = .ok (max L w - L) := by unfold ckSub; rw [if_pos hLm]
+  have e8 : ckMod (max L w * n * k) (n * k) = .ok 0 := by unfold ckMod; rw [if_neg (by omega), hass, Nat.mul_mod_left]
+  have e9 : ckDiv (M * (n * k)) (n * k) = .ok M := by unfold ckDiv; rw [if_neg (by omega), Nat.mul_div_cancel _ hd]
+  unfold GenConc.kg_compute_secret_key_array
+  simp only [e1, e2, e3, gq_ok_bind, if_true]
+  by_cases hr : L = max L w
+  · rw [if_pos hr, if_pos hr]; rfl
+  · rw [if_neg hr, if_neg hr]
+    simp only [e4, e5, e6, e7, e8, e9, gq_ok_bind, if_true, if_pos hLle, if_pos (Nat.le_refl _)]
+    by_cases hw : M = max M w
+    · simp [hw.symm, gq_pure]
+    · simp [hw, gq_pure]
+
 /-! ### what the actions DO: an interpreter, and the model step is the execution of its own actions -/
 
 /-- data semantics of one action on (shared cache, thread-local array); `d` = words per polynomial.
@@ -238,9 +269,6 @@ theorem gq_callActs_lockWF (d : Nat) (A : Alg P) (want : Nat) (cR cW : List P) (
     · rw [if_pos hw]; rfl
     · rw [if_neg hw]; rfl
 
-/-- `KeyGenerator::compute_secret_key_array` translates to the same term as the Decryptor's -/
-theorem gq_kg_eq_dec : @GenConc.kg_compute_secret_key_array = @GenConc.dec_compute_secret_key_array := rfl
-
 /-- EQUALITY (phase structure of the double-checked update): for every request, every cache `cR` the thread sees under the read lock and
     every cache `cW` it sees under the write lock, the generated program of `compute_secret_key_array` is the model's call -/
 theorem gq_dec_compute_eq (A : Alg P) (want n k : Nat) (cR cW : List P) (hd : 0 < n * k) (hnk : n * k < B64)
@@ -248,6 +276,21 @@ theorem gq_dec_compute_eq (A : Alg P) (want n k : Nat) (cR cW : List P) (hd : 0 
     GenConc.dec_compute_secret_key_array want n k (cR.length * (n * k)) (cW.length * (n * k)) =
       .ok (encode (callActs (n * k) true A want cR cW)) := by
   rw [gq_dec_compute_flat want n k _ _ hd hnk hA, gq_callActs (n * k) A want cR cW h1]
+  have hass : max cR.length want * n * k = max cR.length want * (n * k) := Nat.mul_assoc _ _ _
+  by_cases hr : cR.length = max cR.length want
+  · rw [if_pos hr, if_pos hr]; rfl
+  · rw [if_neg hr, if_neg hr]
+    by_cases hw : cW.length = max cW.length want
+    · rw [if_pos hw, if_pos hw, hass]; rfl
+    · rw [if_neg hw, if_neg hw, hass]; rfl
+
+/-- the same for the KeyGenerator: for every request, every cache `cR` the thread sees under the read lock and
+    every cache `cW` it sees under the write lock, the generated program of `compute_secret_key_array` is the model's call -/
+theorem gq_kg_compute_eq (A : Alg P) (want n k : Nat) (cR cW : List P) (hd : 0 < n * k) (hnk : n * k < B64)
+    (hA : max cR.length want * n * k < B64) (h1 : 1 ≤ cR.length) :
+    GenConc.kg_compute_secret_key_array want n k (cR.length * (n * k)) (cW.length * (n * k)) =
+      .ok (encode (callActs (n * k) true A want cR cW)) := by
+  rw [gq_kg_compute_flat want n k _ _ hd hnk hA, gq_callActs (n * k) A want cR cW h1]
   have hass : max cR.length want * n * k = max cR.length want * (n * k) := Nat.mul_assoc _ _ _
   by_cases hr : cR.length = max cR.length want
   · rw [if_pos hr, if_pos hr]; rfl
